@@ -269,6 +269,7 @@ def handleCanon (op : String) (req : Json) : Option Json :=
       ("wf", Json.arr ((MC.Spec.Canon.wfViolations out).map fun v => toJson v).toArray),
       ("ids", Json.arr ((MC.Spec.Canon.idViolations out).map fun v => toJson v).toArray)]
   | "escape" => some <| okJ <| toJson (ofCps (MC.Xml.escape (cps (getStr req "text"))))
+  | "escape_attr" => some <| okJ <| toJson (ofCps (MC.Xml.escapeAttr (cps (getStr req "text"))))
   | "norm_text" => some <| okJ <| toJson (ofCps (MC.Spec.Canon.norm (cps (getStr req "text"))))
   | "add_ids" =>
     let t := nodeOfJson ((req.getObjVal? "tree").toOption.getD Json.null)
